@@ -470,6 +470,15 @@ func (w *c19World) computeDist(meta rewardstypes.LiquidtyGaugeMetaData, coin sdk
 			w.tr.Count("dist:ok-empty")
 		} else {
 			w.tr.Count("dist:ok-mode" + d.mode)
+			sum := sdk.ZeroInt()
+			for _, r := range data {
+				sum = sum.Add(r.RewardCoin.Amount)
+			}
+			if sum.GT(coin.Amount) { // only the sum-of-shares guard of BeginRewardDistributions stands between this and an over-payment
+				w.tr.Count("dist:sum-exceeds-alloc")
+			} else if sum.Equal(coin.Amount) {
+				w.tr.Count("dist:sum-equals-alloc")
+			}
 		}
 		if len(data) > 0 {
 			if d.mode == "0" {
@@ -949,7 +958,7 @@ func c19Lifecycle(t *testing.T, tr *Trace, rng *Rng, seqNo int) {
 
 // direct calls of the real share computation on generated farmer populations, many allocations per population
 func c19Shares(t *testing.T, tr *Trace, rng *Rng) {
-	worlds := scale(6, 40)
+	worlds := scale(6, 80)
 	per := scale(150, 600)
 	for wi := 0; wi < worlds; wi++ {
 		dec := []int64{1, 1000000, 1000000000000000000}[rng.Intn(3)]
@@ -1015,7 +1024,7 @@ func TestC19(t *testing.T) {
 	c19Split(tr, rng)
 	c19Float(tr, rng)
 	c19Shares(t, tr, rng)
-	n := scale(40, 400)
+	n := scale(40, 1200)
 	for s := 0; s < n; s++ {
 		c19Lifecycle(t, tr, rng, s)
 	}
